@@ -45,6 +45,10 @@ func getProfile(name string, seed int64) *Profile {
 		p.Name = "richreopen"
 		p.W = weights(map[string]int{"FindAll": 8, "FindById": 8, "Derived": 3})
 		p.Invalid = 0.02
+	case "retype", "retypereopen": // C11: rewrites with the same values in other Go types / zones
+		p.Rich = true
+		p.Colls = 1
+		p.Invalid = 0
 	case "algebra": // C16: algebraically equivalent criteria, literal kinds, reference operands
 		p.Ops = 40
 		p.Colls = 1
@@ -124,6 +128,8 @@ func generate(p *Profile, seed int64) ([]E, *Universe) {
 		d := AObj("_id", AStr(g.ids[0]), "t", ATime(2, len(zoneTable)-1))
 		return []E{{"op": "CreateCollection", "c": c}, {"op": "Insert", "c": c, "docs": []interface{}{d}},
 			{"op": "FindById", "c": c, "id": B(g.ids[0])}}, g.U
+	case p.Name == "retype" || p.Name == "retypereopen":
+		return g.HistoryRetype(), g.U
 	case p.Name == "algebra":
 		return g.HistoryAlgebra(), g.U
 	case p.Name == "huge":
